@@ -203,11 +203,13 @@ CLAIMED['C08'] = dict(
          'on the fuel of the seven mutually recursive model functions - every result of simplify preserves the value of its input under every '
          'valuation on which the input evaluates, for terms of any size; the folding of abs/bool/int/float/ceil/floor is proved against the '
          'evaluator for every oracle that does not extend the interpreted functions (callFold_sound, Props/C08d), the folding of '
-         'str/len/sum/prod/max/min/gcd is a stated hypothesis (AggFoldSound). Also proved: the result is well-typed (simplify_WT) and has '
+         'len/sum/prod/max/min over literal sets, integer ranges and several arguments is proved (Props/C08e, C08f: len/sum/prod/max/min_fold_sound, '
+         'foldMinMax_sound); what stays a hypothesis is the folding of str and gcd, which the reference semantics leaves to the oracle '
+         '(AggFoldSoundOracle; simplify_sound_silent is unconditional for the oracle that interprets nothing). Also proved: the result is well-typed (simplify_WT) and has '
          'exactly the type of the input (simplify_ty). Function folding and whole-term meaning are also judged by the Lean '
          'evaluator on a valuation grid on every implementation output (which found the seven defects now fixed in /repo).',
     design_ref='DESIGN.md §0.1, §6 C08',
-    note='PARTIAL: SimplifySound is proved conditionally on AggFoldSound (folding of str/len/sum/prod/max/min/gcd over literals); '
+    note='PARTIAL: SimplifySound is proved conditionally on AggFoldSoundOracle (folding of str and gcd, uninterpreted by the reference semantics); '
          'fuel sufficiency of simpFuel is not proved. Exact rational arithmetic; NaN and arithmetic on infinities are errors of the original and '
          'constrain nothing; math functions are uninterpreted.',
     technique='Lean 4 proof by induction over the simplifier recursion (conditional on function-call folding) + full model correspondence + spec evaluation of every output')
